@@ -68,7 +68,7 @@ def r1_handler_census(ctx: Ctx) -> None:
                              "the error it catches is dropped" + (f" (the recovery confirmed in this function catches only {here})" if here else ""))
                 else:
                     ctx.ok(construct, "confirmed recovery: " + RECOVERIES[key])
-    ctx.floor("handlers", 20)
+    ctx.floor("handlers", 13)
     # parse_as_ast: both handlers produce the error that is returned
     pa = ctx.repo.func("a816.parse.mzparser", "MZParser.parse_as_ast")
     for t in _tries(pa.node):
@@ -151,7 +151,7 @@ def r2_entry_point_status(ctx: Ctx) -> None:
     for t in _tries(cli.node):
         for h in t.handlers:
             ctx.check(handler_disposition(cli, t, h) == "reraise", f"cli_main:except {unparse(h.type)}", "the CLI does not absorb exceptions")
-    ctx.floor("handler_success_pairs", 4)
+    ctx.floor("handler_success_pairs", 2)
 
 
 ERROR_VALUED = {"assemble_string_with_emitter": "error message or None", "assemble_with_emitter": "status", "assemble": "status",
@@ -197,7 +197,7 @@ def r3_error_values_consumed(ctx: Ctx) -> None:
                 ctx.check(used, construct, f"the result `{err_name}` is examined or returned")
                 continue
             ctx.ok(construct, "used in an expression")
-    ctx.floor("error_valued_calls", 5)
+    ctx.floor("error_valued_calls", 3)
     # MZParser.parse hands the AST error on
     mp = ctx.repo.func("a816.parse.mzparser", "MZParser.parse")
     r = [x for x in walk_no_nested(mp.node) if isinstance(x, ast.Return)]
@@ -255,9 +255,9 @@ def r5_escape_obligations(ctx: Ctx) -> None:
     for nm in IMPLICIT:
         classes.setdefault(nm, "implicit (subscript / struct / open / int)")
     ctx.count("exception_classes", len(classes))
-    ctx.floor("exception_classes", 12)
+    ctx.floor("exception_classes", 8)
     ctx.count("pipeline_functions", len(reach))
-    ctx.floor("pipeline_functions", 120)
+    ctx.floor("pipeline_functions", 80)
     awe = ctx.repo.func(PROGRAM, "Program.assemble_with_emitter")
     handlers = [(t, h) for t in _tries(awe.node) for h in t.handlers]
     for nm, where in sorted(classes.items()):
